@@ -31,13 +31,14 @@ RULE = ("fault space = every executed statement (LINE event) of NP2Converter.* a
         "two occurrences of each distinct (function, line) site (first / last), thorough = EVERY event index of the trace (each executed statement occurrence), interrupt and "
         "kill semantics; each crash is followed by a retry (overwrite=False) and a forced re-run (overwrite=True). Histories: sequences of "
         "up to 3 process() calls over {overwrite F/T} x {post_check, compress, delete_original} in {F,T}^3 (options may change between "
-        "steps) x {NP2.4 default / random shanks, NP2.1, NP1, already-split shank} x bin / cbin originals. Non-trivial: a history with >= 2 "
+        "steps) x {NP2.4 default / random shanks, NP2.1, NP1, already-split shank} x bin / cbin originals. Storage faults: one bit flipped in one shank file between "
+        "splitting and verification, in every verification window in turn (post_check + delete_original). Non-trivial: a history with >= 2 "
         "steps, or a crash whose failpoint fired after the first processing window; distinct = distinct (kind, options, history | crash site, occurrence)")
 ASSUMPTIONS = ["crash = Python-level interruption at a statement boundary, or os._exit of the process; loss of unsynced page cache is not modelled",
                "stale but valid files of an earlier run (e.g. an old lf.cbin beside a fresh lf.bin) are not a violation: the property asks for a complete, valid set",
                "after the original has been deleted by a verified run the history ends (there is no input left to hand to the converter)"]
 REQUIRED = {"reused_converter_runs": 12, "crash_points_fired": 40, "distinct_crash_sites": 30, "history_steps": 60, "remove_original_judged": 3, "idempotence_checked": 8,
-            "completeness_checked": 20, "recoverability_checked": 100}
+            "completeness_checked": 20, "recoverability_checked": 100, "corruptions_injected": 12}
 CASE_TIMEOUT = 60.0
 MAX_PROCS = 14
 WINDOW = 1200
@@ -46,9 +47,9 @@ STATE = {"conv": None, "check_done": set()}
 
 
 # ------------------------------------------------------------------ recording + disk-state model
-def make_original(rng, root, kind, cbin_original):
+def make_original(rng, root, kind, cbin_original, ns=None):
     """<root>/probe00/NAME.(bin|cbin) ; returns rec"""
-    ns = int(rng.integers(1500, 2600))
+    ns = int(rng.integers(1500, 2600)) if ns is None else ns
     if kind == "NP2.4r":
         sites = np2.shank_assignment(rng, str(rng.choice(["random", "blocks"])), int(rng.integers(2, 4)))
         b, rec = np2.build(rng, root, kind="NP2.4", ns=ns, sites=sites, content="random", gain=np2.GAIN_PAIRS[int(rng.integers(0, 4))])
@@ -178,6 +179,9 @@ def install_spies():
     orig = C.check_NP24
 
     def check_NP24(self):
+        cor = STATE.pop("corrupt", None)
+        if cor is not None:
+            cor(self)                          # storage fault injected between splitting and verification (class "corrupt")
         r = orig(self)
         STATE["check_done"].add(id(self))      # reached only when the comparison loop finished without AssertionError
         return r
@@ -355,7 +359,10 @@ def gen_cases(seed, tier):
         kind, o, steps = reuse[i]
         cases.append({"cls": "history", "kind": kind, "opts": o, "steps": list(steps), "cbin": bool(rng.integers(0, 2)), "change_opts": False, "reuse": True,
                       "seed": seed * 10000 + 7000 + i, "_w": 1.5 * len(steps)})
-    # ---- crash points: one case = one (kind, options) trace, split in slices of crash indices
+    # ---- a storage fault hits one shank file between splitting and verification, in each verification window in turn: with post_check and
+    #      delete_original the original may only go once the output has been VERIFIED identical - the audit-hook invariant judges the unlink
+    for i in range(6 if tier == "quick" else 48):
+        cases.append({"cls": "corrupt", "kind": ["NP2.4", "NP2.4r"][i % 2], "compress": bool((i // 2) % 2), "cbin": bool((i // 4) % 2), "seed": seed * 100 + 70 + i, "_w": 8})
     combos = [("NP2.4", 7), ("NP2.4", 3), ("NP2.4", 2), ("NP2.1", 2), ("NP2.4r", 5), ("NP2.1", 0), ("NP2.4", 0)]
     nsl = 14 if tier == "quick" else 56
     for ci, (kind, o) in enumerate(combos if tier == "thorough" else combos[:4]):
@@ -449,6 +456,51 @@ def run_case(case):
             close_conv(holder["conv"])
         res.sig = f"history-{kind}-{case['opts']}-{case['steps']}-{case['cbin']}-{case['change_opts']}-{bool(case.get('reuse'))}"
         res.nontrivial = len(case["steps"]) >= 2
+        return res
+    if cls == "corrupt":
+        kind = case["kind"]
+        opts = {"post_check": True, "compress": case["compress"], "delete_original": True}
+        base = d / "base"
+        ns = int(rng.integers(3700, 6100))
+        rec = make_original(rng, base, kind, case["cbin"], ns=ns)
+        nwin = -(-ns // WINDOW)
+        nt = 0
+        for w in range(nwin):
+            root = d / f"w{w}"
+            shutil.copytree(base, root)
+            info = {}
+
+            def corrupt(conv, _w=w, _info=info):
+                shanks = sorted(conv.shank_info.keys())
+                sh = shanks[int(rng.integers(0, len(shanks)))]
+                f = Path(conv.shank_info[sh]["ap_file"])
+                ncol = len(conv.shank_info[sh]["chns"])
+                mm = np.memmap(f, dtype=np.int16, mode="r+").reshape(-1, ncol)
+                r0 = int(rng.integers(_w * WINDOW, min((_w + 1) * WINDOW, mm.shape[0])))
+                c0 = int(rng.integers(0, ncol))
+                mm[r0, c0] ^= np.int16(1 << int(rng.integers(0, 15)))
+                mm.flush()
+                del mm
+                _info.update(file=f"{f.parent.name}/{f.name}", row=r0, col=c0)
+                res.count("corruptions_injected")
+            STATE["corrupt"] = corrupt
+            label = f"{kind} {'cbin' if case['cbin'] else 'bin'} ns={ns} compress={case['compress']}: storage fault in verification window {w + 1}/{nwin} before check_NP24"
+            r = step(res, root, rec, opts, False, label)
+            STATE.pop("corrupt", None)
+            if not info:
+                res.count("corruption_hook_not_reached")      # no verification pass ran: the unlink (if any) was judged by the audit-hook invariant
+                shutil.rmtree(root, ignore_errors=True)
+                continue
+            label += f" ({info['file']} row {info['row']} col {info['col']})"
+            res.count("recoverability_checked")
+            res.check(recoverable(root, rec), "recoverable:lost", f"{label}: the original samples are no longer recoverable byte for byte")
+            res.check(not r["deleted"] and original_ok(root, rec), "delete:after-failed-verification", f"{label}: the original was removed although the split output was not identical to it "
+                      f"(status {r['status']}, exc {r['exc']})")
+            nt += 1
+            shutil.rmtree(root, ignore_errors=True)
+        res.sig = f"corrupt-{kind}-{case['compress']}-{case['cbin']}-{case['seed']}"
+        res.nontrivial = nt > 0
+        res.nt = nt
         return res
     if cls == "crash":
         kind = case["kind"]
